@@ -64,6 +64,8 @@ func init() {
 		MinRuns:    16,
 		Exec:       runC17,
 		PanicClass: kit.PanicInRepo("panic-in-repo"),
+		// reach probes every batch is expected to hit (listed in the evidence as probes_never_hit otherwise)
+		ExpectedProbes: []string{"applied.all-gas-used", "applied.create-with-value", "applied.failed-call", "applied.failed-create", "applied.failed-stake", "applied.failed-stake-with-amount", "applied.garbage-staking-payload", "applied.ok-call", "applied.ok-create", "applied.ok-stake", "applied.ok-transfer", "applied.slot-clearing-call", "applied.tokens-staked", "reapplied-after-reorg-drop", "refused.block-gas", "refused.gas-funds", "refused.intrinsic-gas", "refused.nonce-high", "refused.nonce-low", "refused.signature", "refused.value-funds", "reorg-dropped-txs", "reorg-on-builder", "worker-left-out-pending", "worker-refused.gas-funds", "worker-refused.nonce-high", "worker-refused.nonce-low", "worker-refused.value-funds"},
 	})
 }
 
@@ -92,7 +94,7 @@ type sim struct {
 	// genesisOp: client account -> the genesis validator it operates (Senators V1..V3 are
 	// operated by C1..C3, so that deposits and withdrawals reach an existing validator from the
 	// first block on)
-	genesisOp map[common.Address]*chainkit.ValKey
+	genesisOp  map[common.Address]*chainkit.ValKey
 	nextValKey int
 
 	reg      map[common.Hash]*entry
